@@ -21,6 +21,7 @@ import vf
 from vf.job import run_job
 
 VERIF = vf.VERIF
+OUT = os.environ.get('VERIF_OUT') or VERIF   # evidence/ and replays/ go here (seed evaluation redirects it)
 REPLAY_PY = '/venv/bin/python' if os.path.exists('/venv/bin/python') else sys.executable
 
 
@@ -90,8 +91,8 @@ def main(argv=None):
     results.sort(key=lambda r: r['name'])
 
     known = load_known()
-    os.makedirs(os.path.join(VERIF, 'replays'), exist_ok=True)
-    for old in glob.glob(os.path.join(VERIF, 'replays', '%s-*.json' % prop)):
+    os.makedirs(os.path.join(OUT, 'replays'), exist_ok=True)
+    for old in glob.glob(os.path.join(OUT, 'replays', '%s-*.json' % prop)):
         os.remove(old)
     new_viol, known_seen, nonrepro = [], {}, []
     nrep = 0
@@ -107,7 +108,7 @@ def main(argv=None):
             if sum(1 for x in new_viol if x['sig'] == sig) >= 3:
                 continue  # keep at most 3 replays per signature
             nrep += 1
-            path = os.path.join(VERIF, 'replays', '%s-%d.json' % (prop, nrep))
+            path = os.path.join(OUT, 'replays', '%s-%d.json' % (prop, nrep))
             j = specs[r['name']]
             json.dump({'property': prop, 'job': r['name'], 'make': j.make, 'params': j.params,
                        'args': v['args'], 'label': v.get('label'), 'detail': v.get('detail'),
@@ -179,8 +180,8 @@ def main(argv=None):
         'wall_s': round(time.time() - t0, 2),
         'violations': len(new_viol),
     }
-    os.makedirs(os.path.join(VERIF, 'evidence'), exist_ok=True)
-    json.dump(ev, open(os.path.join(VERIF, 'evidence', '%s.json' % prop), 'w'), indent=1,
+    os.makedirs(os.path.join(OUT, 'evidence'), exist_ok=True)
+    json.dump(ev, open(os.path.join(OUT, 'evidence', '%s.json' % prop), 'w'), indent=1,
               default=str)
 
     for k, v in known_seen.items():
